@@ -8,7 +8,7 @@ from . import cscen as CS
 FAIL_EVENTS = {"endfail", "readfail", "writefail", "mtimefail", "cut"}
 
 DEFAULTS = {"k": "", "n": 0, "v": CS.NIL, "sv": CS.NIL, "r": 0, "f": 0, "o": [], "dry": False, "ok": False, "same": True,
-            "ops": [], "anc": [], "tpok": True}
+            "ops": [], "anc": [], "tpok": True, "outin": True}
 
 
 def normalise_event(e):
@@ -311,7 +311,7 @@ def run_history(task):
                 U.log("digest", same=(d0 == U.digest()))
                 continue
             ops, anc = project_physical(U, phys)
-            U.log("dry", ops=ops, anc=anc, tpok=(not st.get("tp")) or bool(phys.graph.graph.get("vf_tp")))
+            U.log("dry", ops=ops, anc=anc, outin=(outnode is None or outnode in phys.graph), tpok=(not st.get("tp")) or bool(phys.graph.graph.get("vf_tp")))
             if st.get("obs"):
                 pt = progress_trace(U, scn, notes, notes2, [], False, True, ngather)
                 if pt:
